@@ -6,7 +6,7 @@ tier="${1:-quick}"
 OUT=/verif/target/c18
 GEN=/verif/harness/c18gen
 mkdir -p "$OUT"
-/verif/target/release/verif gen-c18 "$tier" > "$OUT/gen.log" 2>&1 || { cat "$OUT/gen.log"; echo "MACHINERY-FAILURE: gen-c18"; exit 2; }
+/verif/target/release/verif18 gen-c18 "$tier" > "$OUT/gen.log" 2>&1 || { cat "$OUT/gen.log"; echo "MACHINERY-FAILURE: gen-c18"; exit 2; }
 cp /repo/Cargo.lock "$GEN/Cargo.lock"
 cd "$GEN" || exit 2
 bins=""
